@@ -1,5 +1,6 @@
 import Ekit.Props.C06
 import Ekit.Props.C06HW
+import Ekit.Props.C06Heap
 open Ekit.Props.C06
 #print axioms c06_clq_linearizable
 #print axioms c06_clq_invariants
@@ -62,3 +63,23 @@ open Ekit.Props.C06
 #print axioms Ekit.Props.HWForms.c06_cow_hw_linearizable
 #print axioms Ekit.Props.HWForms.c06_cpq_hw_linearizable
 #print axioms Ekit.Props.HWForms.c06_syncMap_hw_linearizable
+-- composition with the C05 heap model (Ekit/Props/C06Heap.lean)
+open Ekit.Props.C06
+-- C06 ∘ C05: ConcurrentPriorityQueue over the actual heap model (to be merged into Audit/C06.lean)
+#print axioms c06_cpq_heap_linearizable
+#print axioms c06_cpq_heap_prio_linearizable
+#print axioms c06_cpq_heap_bag_linearizable
+#print axioms c06_bagSpec_never_panics
+#print axioms c06_pqSpec_rejects_panicRet
+#print axioms c06_cpq_heap_hinit
+#print axioms c06_cpq_heap_href
+#print axioms c06_cpq_heap_hro
+#print axioms c06_cpq_heap_data_wf
+#print axioms c06_cpq_heap_no_panic
+#print axioms pqStep_of_check
+#print axioms Ekit.Linz.LockWrapped.linearizable_inv
+#print axioms Ekit.Linz.LockWrapped.reachable_inv
+#print axioms Ekit.Linz.LockWrapped.run_lift
+-- the same statements in the classical Herlihy–Wing form
+#print axioms Ekit.Props.HWForms.c06_cpq_heap_hw_linearizable
+#print axioms Ekit.Props.HWForms.c06_cpq_heap_bag_hw_linearizable
